@@ -25,6 +25,9 @@ type Env struct {
 	st   *State
 	old  *State
 	vars map[string]TV
+	// names bound by reference (captured variables of a closure): their value is read from the state the expression
+	// is evaluated in, so that old(name) is the value in the pre-state
+	refs map[string]refVar
 	pkg  *types.Package
 	loop *loopInfo
 	// bound variable guards collected while translating a quantifier body
@@ -48,6 +51,11 @@ func (e *Env) clone() *Env {
 		n.vars[k] = x
 	}
 	return &n
+}
+
+type refVar struct {
+	ptr Value
+	t   types.Type
 }
 
 type trError struct{ msg string }
@@ -263,6 +271,12 @@ func (e *Env) asBool(v TV) Term {
 }
 
 func (e *Env) trIdent(name string) TV {
+	if rv, ok := e.refs[name]; ok && e.st != nil {
+		save := e.st.pc
+		val := e.vc.load(e.st, rv.ptr, rv.t)
+		e.st.pc = save
+		return e.valueTV(val, rv.t)
+	}
 	if v, ok := e.vars[name]; ok {
 		return v
 	}
@@ -804,6 +818,25 @@ func (e *Env) trCall(x *ECall) TV {
 	case "cap":
 		v := e.tr(x.Args[0])
 		return TV{T: SCap(v.T), Go: types.Typ[types.Int]}
+	case "cellof":
+		// cellof(v): the memory cell of a variable that is bound by reference (a captured variable of a closure)
+		id, ok := x.Args[0].(*EIdent)
+		if !ok || len(x.Args) != 1 {
+			trFail("cellof(name)")
+		}
+		rv, ok := e.refs[id.Name]
+		if !ok {
+			trFail("cellof(%s): not a variable bound by reference", id.Name)
+		}
+		switch p := rv.ptr.(type) {
+		case Term:
+			return TV{T: p, Go: types.NewPointer(rv.t)}
+		case PtrVal:
+			if p.Path == "" && p.Idx == nil {
+				return TV{T: p.Base, Go: types.NewPointer(rv.t)}
+			}
+		}
+		trFail("cellof(%s): the variable does not live in a cell of its own", id.Name)
 	case "substr":
 		// substr(s, a, b) is the Go expression s[a:b] on strings
 		if len(x.Args) != 3 {
